@@ -150,11 +150,19 @@ def run_entry(entry, n, seed, acc, tier, checker=None, flavor='plain'):
         kw = gen_params(ch)
         doc = None
         err = None
+        dl = None
+        avoid = '~*:^'
+        if ch.chance(.35):
+            # conformance does not depend on the spelling: another legal delimiter set (C12's rules), line breaks after terminators,
+            # and - where the free text of the document leaves room - a terminator on a read-buffer edge
+            from . import c12
+            dl = c12.draw_delims(ch, entry['icvn'])
+            avoid += ''.join(dl)
         for attempt in range(6):
             # backtracking: when a required node cannot be emitted unambiguously, the optional siblings that
             # caused it are thinned out and the document is rebuilt
             try:
-                doc = docgen.build_doc(entry, ch, values=docgen.Values('~*:^', flavor, entry['icvn']), **kw)
+                doc = docgen.build_doc(entry, ch, values=docgen.Values(avoid, flavor, entry['icvn']), **kw)
                 break
             except docgen.GenFail as e:
                 err = e
@@ -164,7 +172,15 @@ def run_entry(entry, n, seed, acc, tier, checker=None, flavor='plain'):
         if doc is None:
             return {'genfail': str(err)[:200], 'meta': {'file': entry['file']}}
         strip_known(doc, acc)
-        return make_case(doc)
+        if dl is None:
+            return make_case(doc)
+        eol = '' if dl[0] == '\n' else ch.choice(['', '\n', '\r\n'])
+        tags = ['layout:other-delimiters', 'layout:eol=%r' % eol]
+        if ch.chance(.6) and docgen.pad_to_boundary(doc, dl[0], dl[1], dl[2], eol, dl[3], delta=ch.choice([-1, 0, 0, -2, 1]), safe=True):
+            tags.append('layout:terminator-on-buffer-edge')
+        c = make_case(doc, tags)
+        c['text'] = doc.text(term=dl[0], ele=dl[1], sub=dl[2], rep=dl[3], eol=eol)
+        return c
 
     def chk(c):
         if 'genfail' in c:
